@@ -3,6 +3,7 @@ package rules
 import (
 	"fmt"
 	"go/token"
+	"go/types"
 	"strings"
 
 	"golang.org/x/tools/go/ssa"
@@ -251,6 +252,51 @@ func downRules(c *an.Ctx, r *runnerRoles, rule string) {
 			if len(downs) > 0 {
 				onAll, _ = an.OnAllPathsToExit(cb.Blocks[0].Instrs[0], func(in ssa.Instruction) bool { return in == downs[0].(ssa.Instruction) }, an.IsPanicExit)
 			}
+			if len(downs) > 0 && !onAll {
+				// a comma-ok assertion of the stored value to the one type every Store on the list puts there
+				// always succeeds: explore the callback with that knowledge
+				stored := map[string]bool{}
+				for _, g := range c.P.Funcs {
+					for _, sc := range an.CallsIn(g, "(*sync.Map).Store") {
+						if an.FieldKey(sc.Common().Args[0]) == "TaskRunner.cleanupList" {
+							v := sc.Common().Args[2]
+							if mi, ok := v.(*ssa.MakeInterface); ok {
+								stored[mi.X.Type().String()] = true
+							} else {
+								stored["?"] = true
+							}
+						}
+					}
+				}
+				ex := &an.Explorer{P: c.P, NoReturn: noReturn}
+				ex.Atom = func(v ssa.Value) (an.AVal, bool) {
+					e, ok := v.(*ssa.Extract)
+					if !ok || e.Index != 1 {
+						return an.AVal{}, false
+					}
+					ta, ok := e.Tuple.(*ssa.TypeAssert)
+					if !ok || !ta.CommaOk || len(cb.Params) < 2 || !an.SameValue(ta.X, cb.Params[len(cb.Params)-1]) {
+						return an.AVal{}, false
+					}
+					if len(stored) == 1 && stored[ta.AssertedType.String()] {
+						return an.ABool(true), true
+					}
+					return an.AVal{}, false
+				}
+				ex.Effect = func(in ssa.Instruction, st *an.State) string {
+					if in == downs[0].(ssa.Instruction) {
+						return "down"
+					}
+					return ""
+				}
+				outs := ex.Run(cb, cb.Blocks[0], nil, nil)
+				onAll = len(outs) > 0
+				for _, o := range outs {
+					if o.End == "return" && !has(o.Effects, "down") {
+						onAll = false
+					}
+				}
+			}
 			good = len(downs) > 0 && allTrue && onAll
 		}
 	}
@@ -404,6 +450,8 @@ func runToCompletion(c *an.Ctx, rule string) {
 			switch {
 			case !plain:
 				c.Bad(rule, key, ci.Pos(), "the interpreter is started with go/defer in %s: Execute can return while the command is still running, so the task's after hook and the context's down can run during the command", an.Short(fn))
+			case !er.in[fn] && waitedGoroutine(p, er, fn, ci.(*ssa.Call)):
+				c.OK(rule, key, ci.Pos(), "the interpreter runs in a goroutine whose completion Execute's side receives on every path before it returns")
 			case !er.in[fn]:
 				c.Bad(rule, key, ci.Pos(), "the interpreter runs in %s, which Execute does not reach by synchronous calls (a goroutine is started in between): Execute can return while the command is still running, so the task's after hook and the context's down can run during the command", an.Short(fn))
 			default:
@@ -414,4 +462,83 @@ func runToCompletion(c *an.Ctx, rule string) {
 	if n == 0 {
 		c.Und(rule, an.Short(er.ex)+":interp.Run", er.ex.Pos(), "pkg/executor never runs the interpreter")
 	}
+}
+
+// waitedGoroutine recognises `done := make(chan T, n); go func() { …; done <-
+// run() }(); … <-done` with the receive on every path: fn (the function
+// containing the interpreter call) is started by exactly one go statement in
+// a function Execute reaches synchronously, sends on a channel after the call
+// on all its paths, and the starter receives from that channel — directly or
+// in the select case it then takes — on every path from the go statement to
+// its exits.
+func waitedGoroutine(p *an.Prog, er *execRoles, fn *ssa.Function, run *ssa.Call) bool {
+	sites := p.CallSitesOf(fn)
+	if len(sites) != 1 {
+		return false
+	}
+	g, ok := sites[0].(*ssa.Go)
+	if !ok || !er.in[g.Parent()] {
+		return false
+	}
+	// the channel the goroutine signals on after the interpreter returned
+	var ch ssa.Value
+	okSend, _ := an.OnAllPathsToExit(run, func(x ssa.Instruction) bool {
+		if snd, ok := x.(*ssa.Send); ok {
+			r := an.Resolve(snd.Chan)
+			if ch == nil || ch == r {
+				ch = r
+				return true
+			}
+		}
+		return false
+	}, nil)
+	if !okSend || ch == nil {
+		return false
+	}
+	if _, isMake := ch.(*ssa.MakeChan); !isMake {
+		return false
+	}
+	isRecv := func(x ssa.Instruction) bool {
+		if u, ok := x.(*ssa.UnOp); ok && u.Op == token.ARROW && an.Resolve(u.X) == ch {
+			return true
+		}
+		// the first instruction of a block entered only when a select took its receive from ch
+		b := x.Block()
+		if len(b.Instrs) == 0 || b.Instrs[0] != x {
+			return false
+		}
+		// the compiler's "blocking select matched no case" panic is unreachable
+		if mi, ok := x.(*ssa.MakeInterface); ok && len(b.Instrs) == 2 {
+			if _, isPanic := b.Instrs[1].(*ssa.Panic); isPanic {
+				if k, ok := an.ConstString(mi.X); ok && strings.HasPrefix(k, "blocking select matched no case") {
+					return true
+				}
+			}
+		}
+		for _, gd := range an.Guards(b) {
+			bo, ok := gd.Cond.(*ssa.BinOp)
+			if !ok || bo.Op != token.EQL || !gd.Outcome {
+				continue
+			}
+			ex, ok := bo.X.(*ssa.Extract)
+			if !ok || ex.Index != 0 {
+				continue
+			}
+			sel, ok := ex.Tuple.(*ssa.Select)
+			if !ok {
+				continue
+			}
+			k, ok := an.ConstInt(bo.Y)
+			if !ok || int(k) >= len(sel.States) {
+				continue
+			}
+			stt := sel.States[k]
+			if stt.Dir == types.RecvOnly && an.Resolve(stt.Chan) == ch {
+				return true
+			}
+		}
+		return false
+	}
+	okWait, _ := an.OnAllPathsToExit(g, isRecv, nil)
+	return okWait
 }
